@@ -89,6 +89,13 @@ class SuitKMS(SuitKMSBase):
 
     def _verify_signing_key_type(self, private_key, algorithm: str) -> bool:
         """Verify if the key type matches the provided key."""
+        if isinstance(private_key, EllipticCurvePrivateKey) and private_key.curve.name not in (
+            "secp256r1",
+            "secp384r1",
+            "secp521r1",
+        ):
+            # es-256 / es-384 / es-521 are ECDSA over the NIST curves, a key of another curve is not one of theirs
+            raise ValueError(f"Curve {private_key.curve.name} not supported")
         if isinstance(private_key, EllipticCurvePrivateKey):
             return f"es-{private_key.key_size}" == algorithm
         elif isinstance(private_key, Ed25519PrivateKey) or isinstance(private_key, Ed448PrivateKey):
